@@ -353,6 +353,17 @@ def run_shard(spec):
                         s = base[:i] + seg * reps + base[j:]
                         judge_case(gate, s, acc, label=f"{b2s(base)}|{i}:{j}|x{reps}")
                         acc.count("pumped:" + gate)
+        # the letter case of every single letter, and of the whole string (keywords such as HTTP, chunk extension
+        # names and field names differ in what case they admit)
+        for base in seeds:
+            variants = {base.lower(), base.upper(), base.swapcase()}
+            for i in range(len(base)):
+                if base[i:i + 1].isalpha():
+                    variants.add(base[:i] + base[i:i + 1].swapcase() + base[i + 1:])
+            variants.discard(base)
+            for v in sorted(variants):
+                judge_case(gate, v, acc, label=f"{b2s(base)}|case")
+                acc.count("caseflips:" + gate)
         acc.sample({"gate": gate, "mode": "pump", "seeds": [b2s(x) for x in seeds]})
     elif mode == "random":
         rng = random.Random(spec["seed"])
